@@ -366,6 +366,14 @@ def fold(node, env: Optional[dict] = None, _depth=0):
             raise NotLiteral("**kw")
         if isinstance(node.func, ast.Name) and node.func.id in _SAFE_FUNCS and node.func.id not in env:
             fn = _SAFE_FUNCS[node.func.id]
+            if fn is None and node.func.id == "map" and len(node.args) >= 2 and isinstance(node.args[0], ast.Name) \
+                    and _SAFE_FUNCS.get(node.args[0].id) is not None and node.args[0].id not in env:
+                g = _SAFE_FUNCS[node.args[0].id]
+                seqs = [list(f(a)) for a in node.args[1:]]
+                try:
+                    return [g(*xs) for xs in zip(*seqs)]
+                except Exception as e:
+                    raise NotLiteral(str(e))
             if fn is None:
                 raise NotLiteral(node.func.id)
             args = [f(a) for a in node.args]
